@@ -114,7 +114,9 @@ class CFG:
             n = self.n
             succ = [list(s) for s in self.succ] + [[]]
             for i in range(n):
-                if i in self.reach and not succ[i]:
+                # only `return` terminators are exits; `unreachable` and diverging calls end no
+                # returning path, so post-dominance means "on every path that returns"
+                if i in self.reach and not succ[i] and "return" in self.body.blocks[i]["t"]:
                     succ[i] = [n]
             pred = [[] for _ in range(n + 1)]
             for i, ss in enumerate(succ):
@@ -188,7 +190,9 @@ class Tracer:
         "core::convert::identity",
     }
 
-    def __init__(self, body, transparent=None):
+    def __init__(self, body, transparent=None, through_agg=False, through_calls=False):
+        self.through_agg = through_agg
+        self.through_calls = through_calls
         self.body = body
         self.defs = body.defs()
         self.transparent = self.TRANSPARENT if transparent is None else transparent
@@ -233,6 +237,10 @@ class Tracer:
                 f = s["call"]
                 if f.get("def") in self.transparent and s["args"]:
                     out |= self.sources(s["args"][0], depth + 1, seen)
+                elif self.through_calls:
+                    out.add(("call", bb))
+                    for a in s["args"]:
+                        out |= self.sources(a, depth + 1, seen)
                 else:
                     out.add(("call", bb))
             else:
@@ -245,6 +253,9 @@ class Tracer:
                     out |= self.sources(r["cast"], depth + 1, seen)
                 elif "agg" in r:
                     out.add(("agg", bb, j))
+                    if self.through_agg:
+                        for o in r["ops"]:
+                            out |= self.sources(o, depth + 1, seen)
                 else:
                     out.add(("other", bb, j))
         if 1 <= l <= self.body.argc:
